@@ -358,6 +358,7 @@ def materialize(run):
         results = I.explore(harness)
     except (I.OutOfSubset, I.PyRaise) as e:
         run.obligation(n1, "out-of-subset", detail=str(e))
+        run.obligation(n2, "out-of-subset", detail=str(e))
         return
     v1 = v2 = "proved"
     ms = 0.0
